@@ -76,7 +76,7 @@ if "MBI" in KINDS:
     from spsdk.utils.crypto.cert_blocks import CertBlockV1  # noqa: F811
     from spsdk.image.trustzone import TrustZone
 if "OTFAD" in KINDS:
-    from spsdk.utils.crypto.otfad import KeyBlob, OtfadNxp
+    from spsdk.utils.crypto.otfad import KeyBlob
 if "IEE" in KINDS or "IEECTR" in KINDS:
     from spsdk.utils.crypto.iee import (
         IeeKeyBlob,
@@ -295,33 +295,12 @@ def otfad_ctor(n, ex):
     return KeyBlob(0x08001000, 0x0800F3FF, **kw)
 
 
-def otfad_config(n, ex):
-    path = os.path.join(job["dir"], f"otfad_in{n}.bin")
-    with open(path, "wb") as f:
-        f.write(app_binary(n))
-    cfg = {
-        "family": "mimxrt1170",
-        "kek": OTFAD_KEK.hex(),
-        "otfad_table_address": 0x30000400,
-        "data_blobs": [{"data": path, "address": 0x30001000}],
-        "output_folder": job["dir"],
-        "output_name": f"otfad{n}",
-        "key_blobs": [{"start_address": 0x30001000, "end_address": 0x3000F3FF, "aes_key": "0x" + USER["otfad_key"].hex(),
-                       "aes_ctr": "0x" + USER["otfad_ctr"].hex(), "valid": True, "aes_decryption_enable": True, "read_only": True}],
-    }
-    return OtfadNxp.load_from_config(cfg, job["dir"], search_paths=[job["dir"]])
-
-
 def otfad_attrs(obj, fields):
-    kb = obj if isinstance(obj, KeyBlob) else obj[0]
-    return {"key": bytes(kb.key), "ctr": bytes(kb.ctr_init_vector)}, [bytes(kb.key), bytes(kb.ctr_init_vector)]
+    return {"key": bytes(obj.key), "ctr": bytes(obj.ctr_init_vector)}, [bytes(obj.key), bytes(obj.ctr_init_vector)]
 
 
 def otfad_export(obj):
-    if isinstance(obj, KeyBlob):
-        blob = obj.export(kek=OTFAD_KEK)
-    else:
-        blob = obj.export_key_blobs()[:64] if hasattr(obj, "export_key_blobs") else obj.encrypt_key_blobs(OTFAD_KEK)[:64]
+    blob = obj.export(kek=OTFAD_KEK)
     plain = aes_key_unwrap(OTFAD_KEK, blob[:48])  # key[16] ctr[8] start[4] end[4] filler[4] crc[4]
     return {"key": plain[0:16], "ctr": plain[16:24], "filler": plain[32:36]}, [plain[0:16], plain[16:24]]
 
@@ -390,10 +369,18 @@ def _bee_hdr(obj):
     return obj if isinstance(obj, BeeRegionHeader) else obj.headers[0]
 
 
+def _bee_sw_key(h):
+    """The software key through the public sw_key_fuses() (four big-endian words, last word first)."""
+    return b"".join(struct.pack(">I", w) for w in reversed(list(h.sw_key_fuses())))
+
+
 def bee_attrs(obj, fields):
     h = _bee_hdr(obj)
-    f = {"counter": bytes(h._prdb.counter), "kib_key": bytes(h._kib.kib_key), "kib_iv": bytes(h._kib.kib_iv), "sw_key": bytes(h._sw_key)}
-    return f, [f["sw_key"], f["counter"]]
+    f = {"sw_key": _bee_sw_key(h)}
+    prdb, kib = getattr(h, "_prdb", None), getattr(h, "_kib", None)  # no public accessor: best effort, the export is authoritative
+    if prdb is not None and kib is not None:
+        f.update({"counter": bytes(prdb.counter), "kib_key": bytes(kib.kib_key), "kib_iv": bytes(kib.kib_iv)})
+    return f, ([f["sw_key"], f["counter"]] if "counter" in f else [])
 
 
 def bee_export(obj, sw_key_hint):
@@ -491,8 +478,25 @@ def hab_export(obj):
 # ---------------------------------------------------------------------------------------------- HAB through the legacy BootImgRT class
 def habrt_ctor(n, ex):
     img = BootImgRT(0x60000000, BootImgRT.IVT_OFFSET_NOR_FLASH)
-    img.hab_encrypted = True if hasattr(type(img), "hab_encrypted") and False else None  # placeholder, replaced below
+    # documented: "use empty bytes to create random key (recommended)"; nonce None = "random value is used"
+    img.add_image(app_binary(n), address=-1, dek_key=(USER["habrt_dek"] if "dek" in ex else b""))
     return img
+
+
+def habrt_attrs(obj, fields):
+    f = {"dek": bytes(obj.dek_key)}
+    nonce = getattr(obj, "_nonce", None)
+    if nonce:
+        f["nonce"] = bytes(nonce)
+    return f, ([f["dek"], f["nonce"]] if "nonce" in f else [])
+
+
+def habrt_export(obj):
+    # without a CSF (certificates, SRK table) the legacy class cannot be exported; the DEK the caller has to provision is dek_key
+    f, ctr = habrt_attrs(obj, None)
+    if "nonce" not in f:
+        raise RuntimeError("nonce of the legacy HAB image not observable")
+    return f, ctr
 
 
 # ---------------------------------------------------------------------------------------------- bare helper
@@ -511,10 +515,10 @@ def hex_export(obj):
 BUILD = {
     ("SB20", "ctor"): sb20_ctor, ("SB21", "ctor"): sb21_ctor, ("SB21", "config"): sb21_config,
     ("MBI", "ctor"): mbi_ctor, ("MBI", "config"): mbi_config,
-    ("OTFAD", "ctor"): otfad_ctor, ("OTFAD", "config"): otfad_config,
+    ("OTFAD", "ctor"): otfad_ctor,
     ("IEE", "ctor"): iee_ctor, ("IEECTR", "ctor"): ieectr_ctor,
     ("BEE", "ctor"): bee_ctor, ("BEE", "config"): bee_config,
-    ("HAB", "config"): hab_config,
+    ("HAB", "config"): hab_config, ("HABRT", "ctor"): habrt_ctor,
     ("HEX", "call"): hex_call,
 }
 
@@ -532,6 +536,8 @@ def attrs(kind, obj):
         return bee_attrs(obj, None)
     if kind == "HAB":
         return hab_attrs(obj, None)
+    if kind == "HABRT":
+        return habrt_attrs(obj, None)
     if kind == "HEX":
         return hex_attrs(obj, None)
     raise RuntimeError(kind)
@@ -547,9 +553,11 @@ def export(kind, obj):
     if kind in ("IEE", "IEECTR"):
         return iee_export(obj)
     if kind == "BEE":
-        return bee_export(obj, bytes(_bee_hdr(obj)._sw_key))
+        return bee_export(obj, _bee_sw_key(_bee_hdr(obj)))
     if kind == "HAB":
         return hab_export(obj)
+    if kind == "HABRT":
+        return habrt_export(obj)
     if kind == "HEX":
         return hex_export(obj)
     raise RuntimeError(kind)
